@@ -228,3 +228,4 @@ func solveAll(model nextroute.Model, opt nextroute.ParallelSolveOptions) (sols [
 	}
 	return sols, nil, nil, nil
 }
+
